@@ -56,6 +56,8 @@ impl PathBuf {
     pub fn into(self) -> (r: PathBuf) ensures r == self { unimplemented!() }
     #[verifier::external_body]
     pub fn as_path(&self) -> (r: &Path) ensures r.buf() == *self { unimplemented!() }
+    #[verifier::external_body]
+    pub fn new() -> PathBuf { unimplemented!() }
 }
 impl std::borrow::Borrow<Path> for PathBuf {
     #[verifier::external_body]
@@ -148,6 +150,8 @@ pub tracked struct World {
     pub ghost store: Map<PathBuf, Stored>,
     /// number of times a build future was awaited
     pub ghost builds: nat,
+    /// the last awaited build future reported Completed (script ran and exited with status 0)
+    pub ghost last_completed: bool,
 }
 
 impl FsResourcesState {
@@ -261,17 +265,17 @@ pub fn serialize_into(f: StdFile, s: &TargetEnvState, Tracked(w): Tracked<&mut W
     ensures
         /*[C02.needs-record]*/ r matches Some(s) ==> old(w).store.contains_key(state_path(target.project_dir, target.id)) && old(w).store[state_path(target.project_dir, target.id)] == Stored::State(s.view()),
         r is Some ==> *final(w) == *old(w),
-        /*[C05.corrupt]*/ r is None ==> final(w).store == old(w).store || final(w).store == old(w).store.remove(state_path(target.project_dir, target.id)),
+        /*[C05.corrupt,C18.frame-read]*/ r is None ==> final(w).store == old(w).store || final(w).store == old(w).store.remove(state_path(target.project_dir, target.id)),
         /*[C05.corrupt]*/ r is None && old(w).store.contains_key(state_path(target.project_dir, target.id)) && final(w).store.contains_key(state_path(target.project_dir, target.id)) ==> final(w).store == old(w).store,
-        final(w).snap == old(w).snap, final(w).builds == old(w).builds,
+        *final(w) == (World { store: final(w).store, ..*old(w) }),
 //@end
 
 //@fn src/engine/incremental/storage.rs delete_saved_env_state ret=r
 //@contract
     ensures
-        /*[C05.delete-first,C12.state]*/ r is Ok ==> final(w).store == old(w).store.remove(state_path(target.project_dir, target.id)),
-        r is Err ==> final(w).store == old(w).store,
-        final(w).snap == old(w).snap, final(w).builds == old(w).builds,
+        /*[C05.delete-first,C12.state,C18.frame-delete]*/ r is Ok ==> final(w).store == old(w).store.remove(state_path(target.project_dir, target.id)),
+        /*[C18.frame-delete]*/ r is Err ==> final(w).store == old(w).store,
+        *final(w) == (World { store: final(w).store, ..*old(w) }),
 //@end
 
 //@fn src/engine/incremental/storage.rs save_env_state#closure0 as=save_closure params=`file_path: PathBuf, target_id: TargetId, env_state: TargetEnvState` rty=`Result<()>` ret=r
@@ -279,16 +283,16 @@ pub fn serialize_into(f: StdFile, s: &TargetEnvState, Tracked(w): Tracked<&mut W
     ensures
         /*[C03.record]*/ r is Ok ==> final(w).store == old(w).store.insert(file_path, Stored::State(env_state.view())),
         /*[C05.write-on-success-only]*/ r is Err ==> final(w).store == old(w).store || final(w).store == old(w).store.insert(file_path, Stored::Garbage),
-        final(w).snap == old(w).snap, final(w).builds == old(w).builds,
+        *final(w) == (World { store: final(w).store, ..*old(w) }),
 //@end
 
 //@fn src/engine/incremental/storage.rs save_env_state ret=r
 //@closure 0 skeleton=`task::spawn_blocking(<CLOSURE>).await` becomes=`save_closure(file_path, target_id, env_state, Tracked(w))`
 //@contract
     ensures
-        /*[C03.record]*/ r is Ok ==> final(w).store == old(w).store.insert(state_path(target.project_dir, target.id), Stored::State(env_state.view())),
-        /*[C05.write-on-success-only]*/ r is Err ==> final(w).store == old(w).store || final(w).store == old(w).store.insert(state_path(target.project_dir, target.id), Stored::Garbage),
-        final(w).snap == old(w).snap, final(w).builds == old(w).builds,
+        /*[C03.record,C18.frame-save]*/ r is Ok ==> final(w).store == old(w).store.insert(state_path(target.project_dir, target.id), Stored::State(env_state.view())),
+        /*[C05.write-on-success-only,C18.frame-save]*/ r is Err ==> final(w).store == old(w).store || final(w).store == old(w).store.insert(state_path(target.project_dir, target.id), Stored::Garbage),
+        *final(w) == (World { store: final(w).store, ..*old(w) }),
 //@end
 
 // ===========================================================================
@@ -500,7 +504,7 @@ impl FsResourcesState {
         broadcast use vstd::std_specs::hash::group_hash_axioms;
 //@after 0 `let futures = files.into_iter().map(`
         assert(futures.0@ == old(w).snap.listing(resources@));
-        assert(futures.0@.len() == self.view().len());
+        assert(/*[C02.fs-set]*/ futures.0@.len() == self.view().len());
 //@end
 }
 
@@ -755,10 +759,10 @@ impl TargetEnvState {
 //@fn src/engine/incremental/mod.rs env_state_has_not_changed_since_last_successful_execution ret=r
 //@contract
     ensures
-        /*[C02.theorem,C02.needs-record]*/ r ==> *final(w) == *old(w) && old(w).store.contains_key(state_path(target.project_dir, target.id))
+        /*[C02.theorem,C02.needs-record,C18.decision-local]*/ r ==> *final(w) == *old(w) && old(w).store.contains_key(state_path(target.project_dir, target.id))
             && (old(w).store[state_path(target.project_dir, target.id)] matches Stored::State(ev) && env_unchanged(ev, old(w).snap, *target_input, target_output)),
         /*[C05.corrupt]*/ !r ==> final(w).store == old(w).store || final(w).store == old(w).store.remove(state_path(target.project_dir, target.id)),
-        final(w).snap == old(w).snap, final(w).builds == old(w).builds,
+        *final(w) == (World { store: final(w).store, ..*old(w) }),
 //@end
 
 /// the build future handed to `incremental::run` (built by `builder::build_target`, verified in BLD)
@@ -773,6 +777,7 @@ pub fn await_build(future: BuildFuture, target: &TargetMetadata, Tracked(w): Tra
     requires
         /*[C05.delete-first]*/ !old(w).store.contains_key(state_path(target.project_dir, target.id)),
     ensures final(w).store == old(w).store, final(w).builds == old(w).builds + 1,
+        final(w).last_completed == (r matches Ok(BuildTerminationReport::Completed)),
 { unimplemented!() }
 
 //@fn src/engine/incremental/mod.rs run ret=r
@@ -794,6 +799,9 @@ pub fn await_build(future: BuildFuture, target: &TargetMetadata, Tracked(w): Tra
                 is_rs_state(ev.input, old(w).snap, *target_input)
                 && (target_output matches Some(o) ==> ev.output matches Some(ov) && is_rs_state(ov, final(w).snap, *o))),
         /*[C03.record]*/ r matches Ok(IncrementalRunResult::Completed) ==> final(w).builds == old(w).builds + 1,
+        /*[C05.write-on-success-only]*/ r matches Ok(IncrementalRunResult::Completed) ==> final(w).last_completed,
+        /*[C05.write-on-success-only]*/ final(w).builds > old(w).builds && final(w).store.contains_key(state_path(target.project_dir, target.id)) ==> final(w).last_completed,
+        /*[C05.write-on-success-only]*/ r matches Ok(IncrementalRunResult::Cancelled) ==> final(w).builds > old(w).builds && !final(w).last_completed,
 //@end
 
 pub broadcast proof fn lemma_take_all<A>(s: Seq<A>)
